@@ -152,6 +152,8 @@ class LinCombBool:
         other = 1 if other else 0
         return LinCombBool(self + other - 2 * self * other, False)
 
+    __rxor__ = __xor__
+
     def __or__(self, other):
         """
         Performs a logical OR
@@ -163,6 +165,8 @@ class LinCombBool:
             return LinCombBool(self.lc + other.lc - self.lc * other.lc, False)
         other = 1 if other else 0
         return LinCombBool(self.lc + other - self.lc * other, False)
+
+    __ror__ = __or__
 
     def __eq__(self, other): return self.lc == self._ensurebool(other).lc
     def __ne__(self, other): return self.lc != self._ensurebool(other).lc
